@@ -145,6 +145,29 @@ def run(chk):
                     chk.violation(f'lightcone-slice-{col}', f'{desc}: halo {i} slice tokens {toks[st[i]:st[i] + no[i]].tolist()} != {want}', dict(halos=halos))
                     break
     chk.part('lightcone', loads=nlc)
+    # ---- extended coverage (spec/SubsampleSpec.tla): the `subsamples=` argument decision table, all 729 dicts, against the real resolver
+    try:
+        from tlc import run_tlc, read_json
+        import warnings
+        from abacusnbody.data.compaso_halo_catalog import CompaSOHaloCatalog
+        sf = os.path.join(chk.scratch, 'subspec.json')
+        run_tlc(chk, 'MC_SubsampleSpec', module_text="---- MODULE MC_SubsampleSpec ----\nEXTENDS SubsampleSpec\nVARIABLE v\nASSUME Consistent /\\ ExplicitRespected\nASSUME Emit(0)\nInit == v = 0\nNext == v' = v\n====\n",
+                cfg_text='INIT Init\nNEXT Next\n', env={'CASES_OUT': sf}, timeout=600)
+        bad = []
+        for cse in read_json(sf):
+            d = {k2: (v2 == 'T') for k2, v2 in cse['spec'].items() if v2 != 'absent'}
+            try:
+                with warnings.catch_warnings():
+                    warnings.simplefilter('ignore')
+                    ab, cols2 = CompaSOHaloCatalog._setup_load_subsamples(None, dict(d))
+                err = False
+            except ValueError:
+                err, ab, cols2 = True, [], []
+            if err != cse['out']['error'] or (not err and (set(ab) != set(cse['out']['AB']) or set(cols2) != set(cse['out']['cols']))):
+                bad.append(f'{d} -> error={err} AB={ab} cols={cols2}, spec {cse["out"]}')
+        chk.extended('subsamples= argument decision table (729 dicts)', not bad, '; '.join(bad[:3]))
+    except Exception as e:  # noqa
+        chk.extended('subsamples= argument decision table (729 dicts)', False, f'{type(e).__name__}: {e}')
     chk.add_cases(nload + nlc, nontrivial=nontriv + nlc, traces=nload + nlc)
 
 
